@@ -54,6 +54,9 @@ type Chain struct {
 	// OnAccepted is called after ValidateBlock accepted a block and before it is
 	// applied (the store is still at the parent state): the place to try variants.
 	OnAccepted func(cs consensus.State, b types.Block, bs consensus.V1BlockSupplement, kinds []string)
+	// OnRejected is called when ValidateBlock rejected a block the generator
+	// built as valid (the store is at the tip; the block is then dropped).
+	OnRejected func(cs consensus.State, b types.Block, bs consensus.V1BlockSupplement, kinds []string, err error)
 	OnApply    func(ApplyEvent)
 	OnRevert   func(RevertEvent)
 	// OnStoreApplied is called after the store has processed the apply (for
@@ -239,6 +242,9 @@ func (c *Chain) Grow(n int, p Plan) int {
 			c.Stats["gen_rejected"]++
 			c.Stats["gen_rejected:"+NormErr(err)]++
 			c.LastReject = &Rejected{Block: b, Supp: bs, Kinds: kinds, Err: err}
+			if c.OnRejected != nil {
+				c.OnRejected(c.Tip(), b, bs, kinds, err)
+			}
 			// fall back to an empty block so the chain keeps growing
 			eb, ebs, ek, err2 := c.BuildBlock(Plan{MaxTxns: 0, TimeMode: p.TimeMode})
 			if err2 == nil && c.Offer(eb, ebs, ek) == nil {
